@@ -1,14 +1,35 @@
-(* C04 — property theorems only (proved in C04/Proofs*.v), instantiated with the memory
-   orders re-extracted from the code on this run (gen/Params_C04.v). *)
-From MV Require Import C04.Model C04.ProofsLock C04.ProofsOnce C04.ProofsRef gen.Params_C04.
+(* C04 — property theorems only (proved in C04/Proofs*.v), instantiated with what is re-extracted from the
+   repository on this run (gen/Params_C04.v): the memory orders at the call sites, atomic.h and the scheduler
+   hooks as gcc sees them, the loop bodies and the C type of the reference counter. *)
+From Coq Require Import String.
+From MV Require Import Lib.AtomicTie C04.Model C04.AtomicSites C04.ProofsLock C04.ProofsOnce C04.ProofsRef C04.ProofsGen
+  gen.Params_C04.
 Local Open Scope Z_scope.
 
-(* side condition on the code's memory orders: acquire on lock acquisition / READY load,
-   release on unlock / READY store *)
+(* atomic.h (GCC branch, as compiled in the checked configuration): every muggle_atomic_* macro is exactly the
+   __atomic builtin the models assume, with every macro parameter in its place (pointer, value(s), memory
+   order as success order, relaxed failure order, weak flag), the result returned as is (test_and_set:
+   negated); the hook that replaces it in the scheduled runs performs the same builtin on the same operands
+   with the call site's order and logs that order; no other macro escapes the hooks; the order constants are
+   the builtin's; the operand types have the expected sizes *)
+Theorem atomic_macros_are_the_hooked_builtins :
+  atomic_tie_holds header_atomic_table hook_atomic_table unhooked_atomic_macros memory_order_consts atomic_types.
+Proof. exact atomic_tie_checked. Qed.
+Print Assumptions atomic_macros_are_the_hooked_builtins.
+
+(* hence the memory order written at each of the 8 call sites is the one the builtin receives *)
+Theorem c04_call_site_orders_reach_the_builtins :
+  effective_params header_atomic_table code_params = code_params.
+Proof. exact effective_params_code. Qed.
+Print Assumptions c04_call_site_orders_reach_the_builtins.
+
+(* side condition on the orders that reach the builtins: acquire on lock acquisition / READY load,
+   release on unlock / READY store (every lock kind; mutex and trylock are pthread's) *)
 Theorem c04_memory_orders_sufficient :
-  lock_mo_ok code_params KSpin = true /\ lock_mo_ok code_params KSync = true /\
-  lock_mo_ok code_params KMutex = true /\ once_mo_ok code_params = true.
-Proof. vm_compute. repeat split; reflexivity. Qed.
+  let E := effective_params header_atomic_table code_params in
+  lock_mo_ok E KSpin = true /\ lock_mo_ok E KSync = true /\ lock_mo_ok E KMutex = true /\
+  lock_mo_ok E KTry = true /\ once_mo_ok E = true.
+Proof. exact effective_orders_sufficient. Qed.
 Print Assumptions c04_memory_orders_sufficient.
 
 (* spinlock / synclock / mutex: at most one holder, in every reachable state of every
@@ -38,17 +59,18 @@ Proof.
 Qed.
 Print Assumptions lock_previous_holder_writes_visible.
 
-(* call_once: the body starts at most once; a caller that returns finds it completed (exactly
-   one run) and its effects visible *)
-Theorem call_once_runs_once_before_any_return : forall n sched t,
-  let s := exec osys (ostep code_params) (oinit n) sched in
+(* call_once: the body starts at most once; a caller that returns (or has returned from an earlier call and
+   calls again) finds it completed (exactly one run) and its effects visible; any number of racers, any number
+   of calls per racer *)
+Theorem call_once_runs_once_before_any_return : forall n calls sched t,
+  let s := exec osys (ostep code_params) (oinit n calls) sched in
   (o_runs s <= 1)%nat /\
-  (returned (o_pc (o_thr s t)) = true ->
+  (returned (o_pc (o_thr s t)) = true \/ (0 < o_rets (o_thr s t))%nat ->
    o_runs s = 1%nat /\ o_done s = 1 /\ o_seen (o_thr s t) = o_dver s /\ o_early s = 0%nat).
 Proof.
-  intros n sched t s. destruct c04_memory_orders_sufficient as (_ & _ & _ & H). split.
-  - exact (once_at_most_once code_params n sched H).
-  - exact (once_no_early_return code_params n sched t H).
+  intros n calls sched t s. split.
+  - exact (once_at_most_once code_params n calls sched once_mo_ok_code).
+  - exact (once_no_early_return code_params n calls sched t once_mo_ok_code).
 Qed.
 Print Assumptions call_once_runs_once_before_any_return.
 
@@ -66,3 +88,54 @@ Theorem refcnt_single_zero : forall n v0 scripts sched, 0 < v0 ->
   (count_occ Z.eq_dec (map snd (r_lin s)) 0%Z <= 1)%nat /\ 0 <= r_ref s.
 Proof. exact (refcnt_single_zero_all code_params). Qed.
 Print Assumptions refcnt_single_zero.
+
+(* the counter is a C int: `desired = v + 1` at INT_MAX is a signed overflow (undefined behaviour) and the
+   code has no refusal there.  The two theorems above describe the C code only for executions without it
+   (r_ovf = 0); that is guaranteed, together with the counter staying inside the type, when the initial value
+   plus the number of retains in the scripts does not exceed INT_MAX *)
+Theorem refcnt_in_range : forall n v0 scripts sched, 0 < v0 ->
+  v0 + Z.of_nat (total Retain n scripts) <= ref_max ->
+  let s := exec rsys (rstep code_params) (rinit n v0 scripts) sched in
+  r_ovf s = 0%nat /\ 0 <= r_ref s <= ref_max.
+Proof. exact (refcnt_in_range_all code_params). Qed.
+Print Assumptions refcnt_in_range.
+
+(* 'exactly one release observes zero', the other half: when every thread has finished and the scripts hold
+   at least (initial value + number of retains) releases, exactly one release returned 0 and the counter is 0 *)
+Theorem refcnt_exactly_one_zero : forall n v0 scripts sched, 0 < v0 ->
+  v0 + Z.of_nat (total Retain n scripts) <= Z.of_nat (total Release n scripts) ->
+  let s := exec rsys (rstep code_params) (rinit n v0 scripts) sched in
+  (forall t, (t < n)%nat -> r_pc (r_thr s t) = RDone) ->
+  count_occ Z.eq_dec (map snd (r_lin s)) 0%Z = 1%nat /\ r_ref s = 0.
+Proof. exact (refcnt_exactly_one_zero_all code_params). Qed.
+Print Assumptions refcnt_exactly_one_zero.
+
+(* the loop bodies of muggle_ref_cnt_retain / _release, re-translated from the C text on this run, are the
+   model's: refusal exactly at 0, expected = the value read, desired = result = value +- 1, one
+   compare-exchange per pass, no further pass after a successful one; every C type carrying the value is a
+   signed type at least as wide as the model's counter *)
+Theorem ref_loop_body_matches_model : forall v, 0 <= v <= ref_max ->
+  gen_ref_retain 0 0 0 v 0 = rbody_tuple Retain v /\ gen_ref_release 0 0 0 v 0 = rbody_tuple Release v.
+Proof. exact (fun v H => conj (gen_ref_retain_eq v H) (gen_ref_release_eq v H)). Qed.
+Print Assumptions ref_loop_body_matches_model.
+
+Theorem ref_counter_type_matches_model :
+  (In ("muggle_ref_cnt_t"%string, ref_bits / 8, true) atomic_types /\ ref_max = 2 ^ (ref_bits - 1) - 1) /\
+  ref_types_ok gen_ref_retain_types = true /\ ref_types_ok gen_ref_release_types = true.
+Proof. exact (conj ref_type_is_model gen_ref_types_ok). Qed.
+Print Assumptions ref_counter_type_matches_model.
+
+(* .. and that loop body is what the model's step does with a pending operation *)
+Theorem ref_loop_body_drives_model : forall s t o rest, (t < r_n s)%nat ->
+  r_pc (r_thr s t) = RSeg -> r_ops (r_thr s t) = o :: rest ->
+  exists s' notes, rstep code_params s t 0%nat = Some (s', LPlain notes) /\
+  match rbody o (r_ref s) with
+  | None => In (o, -1) (r_lin s') /\ r_ref s' = r_ref s
+  | Some (e, d, res) =>
+    r_pc (r_thr s' t) = RCas e d /\ r_ops (r_thr s' t) = o :: rest /\ r_lin s' = r_lin s /\
+    (r_ref s' = e ->
+     exists s'' mo, rstep code_params s' t 0%nat = Some (s'', LEv (Ev OCasS ref_cell mo e d 1)) /\
+                    r_ref s'' = d /\ r_lin s'' = r_lin s' ++ [(o, res)])
+  end.
+Proof. exact (rbody_drives_rstep code_params). Qed.
+Print Assumptions ref_loop_body_drives_model.
